@@ -76,7 +76,7 @@ Theorem C15_qe_sources : forall arg char,
   /\ (forall q, (if src_qe_range q then Some q else None) = qe_select (Some q) None).
 Proof.
   intros. split; [destruct arg; reflexivity|]. split; [reflexivity|]. split; [reflexivity|]. split.
-  - intros q. unfold src_qe_range. rewrite andb_true_iff, !Qle_bool_iff. tauto.
+  - intros q. unfold src_qe_range. rewrite ?andb_true_iff, ?Qle_bool_iff. tauto.   (* any order / nesting of the two bounds *)
   - intros q. reflexivity.
 Qed.
 Print Assumptions C15_qe_sources.
@@ -92,7 +92,7 @@ Theorem C15_qe_map : forall qs photon,
   /\ (qe_map_model qs photon = None <-> ~ Forall (fun q => 0 <= q <= 1) qs).
 Proof.
   intros. split.
-  - intros q. unfold src_qe_map_range. rewrite andb_true_iff, !Qle_bool_iff. tauto.
+  - intros q. unfold src_qe_map_range. rewrite ?andb_true_iff, ?Qle_bool_iff. tauto.
   - split; [intros out; apply qe_map_bounds | apply qe_map_refused].
 Qed.
 Print Assumptions C15_qe_map.
@@ -143,6 +143,13 @@ Proof.
   - unfold src_ipc_guard, ipc_guard. btauto.
 Qed.
 Print Assumptions C15_ipc_source_is_model.
+
+(* compute_ipc_convolution, as read from the source: ONE convolution of the WHOLE frame with the kernel of ipc_kernel,
+   the edges extended with the mean of the frame - which is what ipc_conv models (a frame convolved in pieces, on a
+   slice, in a loop, or with another boundary rule is not this model: the translator refuses it or says false here) *)
+Theorem C15_ipc_convolution_source : src_ipc_conv_whole_frame = true /\ src_ipc_conv_mean_fill = true.
+Proof. split; reflexivity. Qed.
+Print Assumptions C15_ipc_convolution_source.
 
 (* a constant frame of any shape is a fixed point (fill value = mean = the constant); shape preserved *)
 Theorem C15_ipc_uniform : forall c d a v fr,
